@@ -80,10 +80,16 @@ theorem call_stamps_current_tid (c : Client) (f : ClientFramed) (req : Request) 
     htw, htf, awaitFlush]
   have hne : mbap { transactionId := c.nextTid, unitId := c.unit } n ++ encodeRequestPdu req ≠ [] := by
     simp [mbap, be16]
-  rw [pollFlush]
-  simp [hne, htw]
-  rw [pollFlush]
-  simp [htf]
+  have hfl : pollFlush (mbap { transactionId := c.nextTid, unitId := c.unit } n ++ encodeRequestPdu req) t
+      = (.ready, [], t, [.write (mbap { transactionId := c.nextTid, unitId := c.unit } n ++ encodeRequestPdu req)]) := by
+    unfold pollFlush
+    simp only [List.length_append]
+    rw [show (mbap { transactionId := c.nextTid, unitId := c.unit } n).length + (encodeRequestPdu req).length + 1
+        = ((mbap { transactionId := c.nextTid, unitId := c.unit } n).length + (encodeRequestPdu req).length - 1 + 1) + 1 by
+          have : 0 < (mbap { transactionId := c.nextTid, unitId := c.unit } n).length := by simp [mbap, be16]
+          omega]
+    simp [pollFlushFuel, hne, htw, htf]
+  simp [hfl]
   (repeat' split) <;> simp_all [writtenBytes]
 
 -- non-vacuity: a concrete history with a rejected call, a slave change and a disconnect
